@@ -303,7 +303,7 @@ def _static_cg(
         neg_energy_eps = -eps * jnp.abs(energy)
         # print(f"energy increased", file=sys.stderr)
         info = jnp.where(
-            energy_diff < neg_energy_eps,
+            (energy_diff < neg_energy_eps) & (info < -1),
             jnp.where(_raise_nonposdef, -1, i),
             info,
         )
